@@ -122,6 +122,11 @@ func genC03Op(t *rapid.T, a *ref.AF) OpC03 {
 		}
 	case "copyAF":
 		minAF := 1
+		if rapid.IntRange(0, 11).Draw(t, "src-no-af") == 0 {
+			b := genWellFormedPacket(t, []int{1}, 0).MustBytes()
+			o.Src = clone(b[:])
+			break
+		}
 		if rapid.IntRange(0, 5).Draw(t, "src-empty-af") == 0 {
 			minAF = 0 // the source may carry an adaptation field of length 0 (no flags byte at all)
 		}
@@ -275,8 +280,12 @@ func c03Apply(a *ref.AF, o OpC03) (na *ref.AF, wantErr bool, undefined string, s
 		var sb [188]byte
 		copy(sb[:], o.Src)
 		sp, ok := ref.ParsePacket(sb)
-		if !ok || sp.AF == nil {
-			panic("harness: copyAF source must be a well-formed packet with an adaptation field")
+		if !ok {
+			panic("harness: copyAF source must be a well-formed packet")
+		}
+		if sp.AF == nil {
+			// the source packet has no adaptation field: AdaptationField() yields (nil, error), and copying "nothing" cannot be honoured
+			return a, true, "", false
 		}
 		if sp.AF.Len == 0 {
 			// an empty field has no flags and no optional fields: copying it leaves none set (a refusal is accepted as well, see checkC03)
@@ -389,9 +398,10 @@ func c03Call(p *packet.Packet, o OpC03) error {
 		var sp packet.Packet
 		copy(sp[:], o.Src)
 		saf, err := sp.AdaptationField()
-		if err != nil {
+		if err != nil && saf != nil {
 			return err
 		}
+		// (a source without adaptation field yields a nil *AdaptationField, which is handed on as it is)
 		keep := sp
 		err = p.SetAdaptationField(saf)
 		if sp != keep {
